@@ -242,8 +242,8 @@ end
 def Instr.fits : Instr → Bool
   | .const k | .jump k | .jumpIfFalse k | .array k
   | .getLocal k | .setLocal k | .getGlobal k | .setGlobal k => k ≤ 65535
-  | .fused _ l k => l ≤ 65535 && k ≤ 65535
-  | .callBuiltin _ n => n ≤ 255
+  | .fused op l k => l ≤ 65535 && k ≤ 65535 && (fusedOpcode op).isSome
+  | .callBuiltin b n => b ≤ 255 && n ≤ 255
   | .call n => n ≤ 255
   | _ => true
 
